@@ -350,8 +350,9 @@ _EXT_RAISES: Dict[str, List[ExcTok]] = {
     "builtins.next": [("builtins.StopIteration", True)],
     "inspect.signature": [("builtins.ValueError", True), ("builtins.TypeError", True)],
     "Path.unlink": [("builtins.OSError", False)],
-    "argparse.ArgumentParser.parse_args": [(EXCEPTION, False)],
-    "argparse.ArgumentParser.parse_known_args": [(EXCEPTION, False)],
+    # what a ControlParser raises on purpose (exact tokens: routed to the handler that names them) + anything else
+    "argparse.ArgumentParser.parse_args": [("argparse.ArgumentError", True), ("exceptions.HelpRequested", True), ("exceptions.ParserError", True), (EXCEPTION, False)],
+    "argparse.ArgumentParser.parse_known_args": [("argparse.ArgumentError", True), ("exceptions.HelpRequested", True), ("exceptions.ParserError", True), (EXCEPTION, False)],
     "list.remove": [("builtins.ValueError", True)],
     "set.remove": [(KEYERROR, True)],
     "dict.__delitem__": [(KEYERROR, True)],
